@@ -85,3 +85,26 @@ extern "C" void h_task_stop() {
   VF_ASSERT((g_leaf_stop_at_start[0] != 0) == pre, "stop request on the awaiting receiver did not reach the awaited sender's stop token");
   delete ext; vf_check_leaks();
 }
+
+// co_return whose result construction throws: the exception becomes the task's error and nothing is destroyed that was never constructed
+static int tr_ctor, tr_dtor, tr_bad;
+struct tres { int v; bool alive;
+  tres(int x) : v(x), alive(true) { if (x < 0) throw int(4); ++tr_ctor; }
+  tres(tres&& o) noexcept : v(o.v), alive(true) { ++tr_ctor; }
+  ~tres() { if (!alive) ++tr_bad; alive = false; ++tr_dtor; } };
+struct rrec {
+  void set_value(tres&& t) && noexcept { ++g_rec[0].n_value; g_rec[0].v0 = t.v; }
+  void set_error(std::exception_ptr e) && noexcept { ++g_rec[0].n_error; try { std::rethrow_exception(e); } catch (int x) { g_rec[0].err = x; } catch (...) { g_rec[0].err = -2; } }
+  void set_done() && noexcept { ++g_rec[0].n_done; }
+  friend inline_scheduler tag_invoke(tag_t<get_scheduler>, const rrec&) noexcept { return {}; }
+};
+static task<tres> returns_tres(int x) { co_return x; }
+extern "C" void h_task_retthrow() {
+  int x = vf_param(0) ? -1 : 5;
+  { auto op = connect(returns_tres(x), rrec{}); start(op); }
+  VF_ASSERT(R.total() == 1, "task did not complete exactly once");
+  if (x < 0) VF_ASSERT(R.n_error == 1 && R.err == 4, "exception thrown while constructing the co_return value was not delivered as the task's error");
+  else VF_ASSERT(R.n_value == 1 && R.v0 == 5, "co_return value lost");
+  VF_ASSERT(tr_bad == 0 && tr_ctor == tr_dtor, "a result object was destroyed without having been constructed (or leaked)");
+  vf_check_leaks();
+}
